@@ -10,6 +10,8 @@ TRUSTED = [
     'only produces weights and sums that are exactly representable, which the harness checks with fractions.Fraction), '
     'math.log (an arbitrary antitone function with nlog 1 = 0 in the theorems), collections.Counter, '
     'wordnet.synsets(word) (an input of the model; its result is checked by the oracle against the declared words)',
+    'ic.load: the model takes tokenised lines (synset number, class, exact rational weight, ROOT flag); splitting the text '
+    'lines and float() are done by the harness and checked only by the oracle on the implementation',
 ]
 CLS = {'n': 0, 'v': 1, 'a': 2, 's': 2, 'r': 3}
 ICPOS = {'n': 0, 'v': 1, 'a': 2, 'r': 3}
@@ -72,6 +74,10 @@ def gen(rng, tier):
             if g['pos'][i - 1] in ICPOS and rng.random() < 0.7:
                 wt = rng.choice(['1', '2.5', '12', '0.25', '100'])
                 lines.append('%d%s %s%s' % (i, g['pos'][i - 1], wt, ' ROOT' if rng.random() < 0.3 else ''))
+        if k % 3 == 0 and len(lines) > 1:
+            # the same synset listed twice (no random draw: the stream of the other choices stays as it was):
+            # the later weight replaces the earlier one, and each ROOT line adds to the total
+            lines.append(lines[1].split()[0] + ' 3' + (' ROOT' if k % 2 == 0 else ''))
         g['ic_load'] = '\n'.join(lines) + '\n'
         gs.append(g)
         k += 1
@@ -84,7 +90,7 @@ def frac(hexs):
     return Fraction(float.fromhex(hexs))
 
 
-def oracle(rep, g, rec, stats, pairs):
+def oracle(rep, g, rec, stats, pairs, load_pairs=None):
     n = g['n']
     adj = G.adj_of(n, g['plain_edges'])
     reach = {i: G.reach_set(adj, i) for i in range(1, n + 1)}
@@ -245,6 +251,20 @@ def oracle(rep, g, rec, stats, pairs):
             for key_ in expF:
                 if key_ not in gotF:
                     rep.fail('ic.load drops a listed synset', case, {'synset': key_})
+            # correspondence case for Model/Ic.v run_load: the table of the wordnet's synsets and the tokenised lines
+            tbl = [[i, CLS.get(g['pos'][i - 1], -1)] for i in range(1, g['n'] + 1)]
+            mlines = []
+            for ln in g['ic_load'].splitlines()[1:]:
+                parts = ln.split()
+                wt = Fraction(parts[1])
+                mlines.append([int(parts[0][:-1]), ICPOS.get(parts[0][-1], -1), wt.numerator, wt.denominator,
+                               len(parts) > 2])
+            byid = {i: v for (c_, i), v in gotF.items() if CLS.get(g['pos'][i - 1], -1) == c_}
+            implL = [[[i, byid[i].numerator, byid[i].denominator] for i, c_ in tbl if c_ >= 0 and i in byid],
+                     [[c_, gotT.get(c_, Fraction(-1)).numerator, gotT.get(c_, Fraction(-1)).denominator]
+                      for c_ in range(4)]]
+            if load_pairs is not None:
+                load_pairs.append(([tbl, mlines], implL))
             if gotT != expT:
                 rep.fail('ic.load totals are not the sums of the ROOT lines', case,
                          {'got': {k_: str(v) for k_, v in gotT.items()}, 'expected': {k_: str(v) for k_, v in expT.items()}})
@@ -273,9 +293,10 @@ def run(rep, tier, build, replay=None):
     byk = {rec['k']: rec for o in outs for rec in o}
     stats = {}
     pairs = []
+    load_pairs = []
     nontriv = set()
     for g in gs:
-        if oracle(rep, g, byk[g['k']], stats, pairs):
+        if oracle(rep, g, byk[g['k']], stats, pairs, load_pairs):
             nontriv.add(common.canon_hash([g['plain_edges'], g['words'], g['pos']]))
     mism, info = common.coq_mismatches('WnV.Model.Ic', 'run_ic', 'agree_ic', pairs, tag='c15', shard=150)
     if info['errors']:
@@ -284,7 +305,16 @@ def run(rep, tier, build, replay=None):
         ex = [{'input': pairs[i][0], 'impl': pairs[i][1]} for i in mism[:2]]
         rep.broke('correspondence Model/Ic.v vs wn.ic.compute: %d of %d cases differ; first: %s; model says: %s'
                   % (len(mism), len(pairs), ex, info.get('model_outputs', '')[:2000]))
+    mismL, infoL = common.coq_mismatches('WnV.Model.Ic', 'run_load', 'agree_ic', load_pairs, tag='c15l', shard=300)
+    if infoL['errors']:
+        rep.broke('correspondence evaluation (ic.load) failed in Coq: ' + '; '.join(infoL['errors'])[:1500])
+    if mismL:
+        ex = [{'input': load_pairs[i][0], 'impl': load_pairs[i][1]} for i in mismL[:2]]
+        rep.broke('correspondence Model/Ic.v run_load vs wn.ic.load: %d of %d cases differ; first: %s; model says: %s'
+                  % (len(mismL), len(load_pairs), ex, infoL.get('model_outputs', '')[:2000]))
     rep.coverage.update({
+        'load_evaluations': len(load_pairs),
+        'load_correspondence_mismatches': len(mismL),
         'evaluations': len(pairs),
         'distinct_nontrivial': len(nontriv),
         'rule': 'hypernym graphs (diamond, deeper convergence, cycle, self-loop, forest + random forests/DAGs/diamonds/cyclic/'
